@@ -151,6 +151,8 @@ def read_tree(root=".") -> typ.Dict[str, bytes]:
     for dirpath, dirnames, filenames in os.walk(root):
         dirnames[:] = sorted(d for d in dirnames if d not in (".git", ".hg"))
         for fn in sorted(filenames):
+            if fn in (".git", ".hg") and dirpath == root:
+                continue  # a gitfile (`.git` as a file: linked work tree, separate git dir) is repository plumbing, like the directory
             p = os.path.join(dirpath, fn)
             with open(p, "rb") as f:
                 out[os.path.relpath(p, root)] = f.read()
@@ -165,6 +167,15 @@ def write_tree(files: typ.Dict[str, bytes], root="."):
             os.makedirs(d)
         with open(p, "wb") as f:
             f.write(data if isinstance(data, bytes) else data.encode("utf-8"))
+
+
+def mark_repo(kind="git", as_file=False):
+    """Make the current directory look like a repository to bumpver: `.git/` (or `.hg/`), or - as_file - a gitfile."""
+    if as_file:
+        with open("." + kind, "w") as f:
+            f.write("gitdir: /nonexistent/store/worktrees/wt\n")
+    else:
+        os.mkdir("." + kind)
 
 
 def clear_dir(root="."):
